@@ -660,7 +660,7 @@ func checkC02(r *Run) {
 	topLevelWriteRule(r, "R1")
 	silentStatementsRule(r, "R2")
 	literalTextRule(r, "R3")
-	textScannerRule(r, "R4")
+	textScannerRuleSSA(r, "R4")
 }
 
 // textScannerRule: must-pass-through of the tag-start test in the literal-text loop.
